@@ -812,19 +812,17 @@ struct elements_iterator_t : boost::multi::random_accessable<elements_iterator_t
 	}
 
 	BOOST_MULTI_HD constexpr auto operator+=(difference_type n) -> elements_iterator_t& {
-		if(xs_.num_elements() != 0) {  // an empty range has no index tuples (and from_linear would divide by zero)
-			auto const nn = std::apply(xs_, ns_);
-			ns_ = xs_.from_linear(nn + n);
-		}
 		n_ += n;
+		if(xs_.num_elements() != 0) {  // an empty range has no index tuples (and from_linear would divide by zero)
+			ns_ = xs_.from_linear(n_);  // from the position, not from the tuple: after ++ reached the end the tuple has wrapped around
+		}
 		return *this;
 	}
 	BOOST_MULTI_HD constexpr auto operator-=(difference_type n) -> elements_iterator_t& {
-		if(xs_.num_elements() != 0) {
-			auto const nn = std::apply(xs_, ns_);
-			ns_ = xs_.from_linear(nn - n);
-		}
 		n_ -= n;
+		if(xs_.num_elements() != 0) {
+			ns_ = xs_.from_linear(n_);
+		}
 		return *this;
 	}
 
@@ -851,8 +849,7 @@ struct elements_iterator_t : boost::multi::random_accessable<elements_iterator_t
 	BOOST_MULTI_HD constexpr auto operator->() const -> pointer   {return base_ + std::apply(l_, ns_) ;}
 	BOOST_MULTI_HD constexpr auto operator*()  const -> reference {return base_  [std::apply(l_, ns_)];}
 	BOOST_MULTI_HD constexpr auto operator[](difference_type const& n) const -> reference {
-		auto const nn = std::apply(xs_, ns_);
-		return base_[std::apply(l_, xs_.from_linear(nn + n))];
+		return base_[std::apply(l_, xs_.from_linear(n_ + n))];
 	}  // explicit here is necessary for nvcc/thrust
 
 	#if defined(__clang__)
